@@ -629,6 +629,10 @@ func genCase(t *rapid.T) Case {
 	c.Literal = rapid.IntRange(0, 2).Draw(t, "literal") == 0
 	c.Window = rapid.SampledFrom([]int{0, 0, 0, 1, 2}).Draw(t, "window")
 	c.Src = rapid.Bool().Draw(t, "src")
+	if c.BlendAgain && rapid.Bool().Draw(t, "ba.sheet") {
+		// ... as the second of two equal tiles drawn by one Renderer
+		c.Relation, c.Sheet, c.Window, c.SheetSameGraphic, c.SheetNewRenderer, c.SheetOtherImage = "offset", true, 0, true, false, false
+	}
 	if c.Relation == "operator" {
 		c.Src = rapid.IntRange(0, 3).Draw(t, "srcop") != 0
 	}
